@@ -567,11 +567,34 @@ def rec_rules(chk, ctx):
                 if any(isinstance(t, ast.Name) and t.id not in known_names for t in ast.walk(tree)):
                     return False
             return True
+        import re as _re
+
+        def value_guarded(root, path):
+            """the difference lies in an arm of an `if` whose test compares costs only (no "result still unset" disjunct):
+            whether that arm is ever taken is a fact about table values"""
+            cur = root
+            for m_ in _re.finditer(r"/(\w+)\[(\d+)\]|\[(\d+)\]", path):
+                try:
+                    if m_.group(1):
+                        i_ = int(m_.group(2))
+                        if cur[0] == "if" and i_ in (1, 2):
+                            at = atoms_of(cur[1])
+                            if any(x == "RES_COST" or x.startswith("COST(") for x in at) and "RES_UNSET" not in at:
+                                return True
+                        cur = cur[1 + i_]
+                    else:
+                        cur = cur[int(m_.group(3))]
+                except (IndexError, TypeError):
+                    return False
+            return False
         for path, a, b, kind in d[:4]:
             definite = kind == "leaf" and understood(a) and understood(b)
-            chk.decide("C16.REC", "mixed#recurrence", False if definite else None,
+            guarded = definite and value_guarded(rest_m, path)
+            chk.decide("C16.REC", "mixed#recurrence", False if (definite and not guarded) else None,
                        f"planners differ at {path or '/'}: memoised {show(a)[:160]}  vs  tabulated {show(b)[:160]}"
-                       + ("" if definite or kind != "leaf" else " [not definite: a side mentions names outside the canonical vocabulary]"),
+                       + (" [not definite: the difference sits in a branch taken only if one cost is smaller than another - whether "
+                          "that ever happens is a fact about table values]" if guarded else
+                          ("" if definite or kind != "leaf" else " [not definite: a side mentions names outside the canonical vocabulary]")),
                        rel=REL, node=core[1])
     # loop ranges of the table cover the domain n in [2, n], s in [1, s]
     want = {"s_i": (pkey(pconst(1)), pkey(padd(patom("s"), pconst(1)))),
